@@ -30,6 +30,7 @@ import (
 	"fmt"
 	"math"
 	"os"
+	"runtime/debug"
 	"sort"
 	"strconv"
 	"strings"
@@ -1184,6 +1185,12 @@ func Run(r *mc.Run) {
 		"an edge lying on a pole (lat ±90) is the end of the coordinate domain: points up to the pole are inside; points within the band of a pole have no definite longitude",
 		"a multi-point document must match when any of its points is clearly inside and must not when all are clearly outside; in distance sort it may be placed by any of its points",
 		"in-memory indexes, one batch; segment layout / merging is C05's business")
+	// the searches allocate heavily (one FST state per dictionary probe); with the default
+	// GOGC=300 of mc.Main the heap grows into fresh pages faster than it is reused, which costs
+	// more (page faults, zeroing) than the collections it saves: measured 25 % less CPU at 100.
+	if os.Getenv("GOGC") == "" {
+		defer debug.SetGCPercent(debug.SetGCPercent(100))
+	}
 	c := &checker{r: r}
 	engs := engines()
 
